@@ -85,6 +85,11 @@ def observe(parent, x_node, items, inner=None, monitor=True, prelude=None):
             ob.snap = run()
     else:
         ob.snap = run()
+    if prelude and ob.snap.err is not None:
+        # an error that the same program also produces without any history is not the history's (see progs.run_mux)
+        fresh = observe(parent, x_node, items, inner, monitor, None)
+        if fresh.snap.err is not None:
+            return fresh
     ob.monitor = mon
     O, odd_o = tagged_lifetimes(log, 'O')
     I, odd_i = tagged_lifetimes(log, 'I')
